@@ -4,6 +4,7 @@
    touches a target parameter" - parameter identity is outside the model. *)
 From Coq Require Import ZArith List Bool QArith.
 From SB3V Require Import Gen.Frag_polyak Model.Polyak Model.Cadence Proofs.PolyakProofs Proofs.CadenceProofs.
+From SB3V Require Import Model.LearnLoop Model.LearnCadence Proofs.LearnCadenceProofs.
 Import ListNotations.
 
 (* ---- the averaging rule, for all parameters and all tau ---- *)
@@ -114,6 +115,57 @@ Theorem C08_sac_update_times_per_call : forall tui g, 0 < tui ->
 Proof. exact sac_update_times_per_call. Qed.
 Print Assumptions C08_sac_update_times_per_call.
 
+(* ---- C08 x C12: target updates over a WHOLE learn() call (the learn-loop model of C12 driving the counters) ----
+   an off-policy learn() with train_freq = f vectorised steps, n_envs, learning_starts ls, gradient_steps gs (-1 included),
+   no callback stop, from num_timesteps = num >= 0; R = f * n_envs timesteps per rollout;
+   NR = n_rollouts R total num = ceil((total - num) / R) rollouts; g = gs if gs >= 0 else R gradient steps per train();
+   T = n_trains R ls num NR = NR - min(NR, max(0, floor((ls - num) / R))) train() calls (0 if g = 0) *)
+Theorem C08_learn_call_shape : forall n_envs total ls gs num (f K : nat) stop,
+  (forall n, stop n = false) -> 0 < Z.of_nat f * n_envs -> 0 <= num -> total - num <= Z.of_nat K * (Z.of_nat f * n_envs) ->
+  let R := Z.of_nat f * n_envs in
+  let r := loop (OffPolicy ls gs) n_envs total stop (repeat f K) num in
+  let g := grad_steps gs R in
+  let NR := n_rollouts R total num in
+  let T := if 0 <? g then n_trains R ls num NR else 0%nat in
+  train_sizes (fst (fst r)) = repeat (Z.to_nat g) T /\ snd (fst r) = num + Z.of_nat NR * R.
+Proof. exact whole_call_sizes. Qed.
+Print Assumptions C08_learn_call_shape.
+
+(* DQN: floor((n_calls + NR*f) / period) - floor(n_calls / period) updates, period = max(tui // n_envs, 1): one per period
+   vectorised steps, independent of learning_starts / gradient_steps *)
+Theorem C08_learn_call_dqn : forall n_envs total ls gs num (f K : nat) stop,
+  (forall n, stop n = false) -> 0 < Z.of_nat f * n_envs -> 0 <= num -> total - num <= Z.of_nat K * (Z.of_nat f * n_envs) ->
+  forall tui n_calls, 0 < n_envs ->
+  let R := Z.of_nat f * n_envs in
+  let r := loop (OffPolicy ls gs) n_envs total stop (repeat f K) num in
+  count_true (learn_flags_dqn tui n_envs n_calls num (snd (fst r))) = dqn_updates tui n_envs (Z.of_nat f) n_calls (n_rollouts R total num).
+Proof. exact whole_call_dqn. Qed.
+Print Assumptions C08_learn_call_dqn.
+
+(* TD3 / DDPG: floor((n_updates + T*g) / policy_delay) - floor(n_updates / policy_delay) *)
+Theorem C08_learn_call_td3 : forall n_envs total ls gs num (f K : nat) stop,
+  (forall n, stop n = false) -> 0 < Z.of_nat f * n_envs -> 0 <= num -> total - num <= Z.of_nat K * (Z.of_nat f * n_envs) ->
+  forall delay n_updates, 0 < delay ->
+  let R := Z.of_nat f * n_envs in
+  let r := loop (OffPolicy ls gs) n_envs total stop (repeat f K) num in
+  let g := grad_steps gs R in
+  let T := if 0 <? g then n_trains R ls num (n_rollouts R total num) else 0%nat in
+  0 <= g -> count_true (learn_flags_td3 delay n_updates (fst (fst r))) = td3_updates delay n_updates g T.
+Proof. exact whole_call_td3. Qed.
+Print Assumptions C08_learn_call_td3.
+
+(* SAC: T * ceil(g / target_update_interval): every train() call restarts the interval (finding F9, exactly) *)
+Theorem C08_learn_call_sac : forall n_envs total ls gs num (f K : nat) stop,
+  (forall n, stop n = false) -> 0 < Z.of_nat f * n_envs -> 0 <= num -> total - num <= Z.of_nat K * (Z.of_nat f * n_envs) ->
+  forall tui, 0 < tui ->
+  let R := Z.of_nat f * n_envs in
+  let r := loop (OffPolicy ls gs) n_envs total stop (repeat f K) num in
+  let g := grad_steps gs R in
+  let T := if 0 <? g then n_trains R ls num (n_rollouts R total num) else 0%nat in
+  0 <= g -> count_true (learn_flags_sac tui (fst (fst r))) = sac_updates tui g T.
+Proof. exact whole_call_sac. Qed.
+Print Assumptions C08_learn_call_sac.
+
 (* ---- ties of the three counters to the regenerated conditions ---- *)
 Theorem C08_frag_cadence : forall c tui n delay g,
   dqn_update_cond (dqn_count c) tui n = ((c + 1) mod dqn_period tui n =? 0) /\
@@ -131,3 +183,10 @@ Example C08_ex_sac : sac_calls 2 [3; 1]%nat = [true; false; true; true].
 Proof. reflexivity. Qed.
 Example C08_ex_polyak : polyak_list (1 # 4) [8; 0]%Q [0; 4]%Q = Some [2; 3]%Q.
 Proof. reflexivity. Qed.
+
+(* total 20, train_freq 3 x 2 envs (R = 6), learning_starts 7, gradient_steps -1: 4 rollouts to 24, train at 12, 18, 24 with 6 steps *)
+Example C08_ex_learn_call :
+  n_rollouts 6 20 0 = 4%nat /\ n_trains 6 7 0 4 = 3%nat /\
+  fst (fst (loop (OffPolicy 7 (-1)) 2 20 (fun _ => false) (repeat 3%nat 6) 0)) = [(12, 6); (18, 6); (24, 6)] /\
+  sac_updates 4 6 3 = 6 /\ td3_updates 2 0 6 3 = 9 /\ dqn_updates 5 2 3 0 4 = 6.
+Proof. repeat split; reflexivity. Qed.
